@@ -10,7 +10,9 @@ from vlib import common, report, flow
 
 RULE = ("harness-generated: operands listed in DESIGN.md as failing first; word grids (all pairs) for the word constructors; "
         "big-integer pairs and decimal strings; every class of double (exponent grid x mantissa grid x sign; thorough: every exponent) "
-        "plus random doubles; exhaustive square of the small canonical fractions (|num|,den <= 6) and of all pairs n/d (|n|,d <= 4) "
+        "plus random doubles; conversions out of Q around the limits of every word type and across double/float magnitudes; histories of 80-120 calls on "
+        "six live objects (special doubles, pair constructors, arithmetic, in-place and fused forms, self-aliased forms, comparisons) interleaved with "
+        "SetReduce/SetNoReduce, every line carrying the observed mode and the operands' stored pairs; exhaustive square of the small canonical fractions (|num|,den <= 6) and of all pairs n/d (|n|,d <= 4) "
         "without reduction; structured random operands (zero, integers, unit fractions, shared factors, multi-limb) with a second "
         "operand related to the first (equal denominators, equal, opposite, inverse, cross factors, just above/below, very different sizes). "
         "distinct = distinct (operation, mode, operands); non-trivial = some operand token outside {0,1}")
@@ -26,9 +28,16 @@ def run(prop, tier, seed, replay=None):
         "text construction is modelled on the token grammar  [blanks] int [blanks / int]  (GMP's decimal integer reader is trusted); "
         "malformed text belongs to C19",
         "the IEEE-754 double is modelled by its three bit fields (sign, biased exponent, mantissa); infinities and NaN are excluded (finite doubles)",
-        "in-place operators and field operations are checked with a destination distinct from the operands (aliasing belongs to C15)",
+        "in-place operators and field operations are checked with a destination distinct from the operands, plus s += s, s -= s and inv(r,r) "
+        "(same object on both sides); the other alias patterns belong to C15",
+        "Rational::flags (the process-wide reduction mode) is observed through a derived accessor class before and after every call, and every "
+        "machine-level store to it during a call is counted with a hardware write watchpoint (perf_event_open; when the kernel refuses, the "
+        "count is reported as unobserved and only the before/after comparison remains)",
+        "conversions to double/float: mpz_get_d is modelled as truncation to 53 bits, the division and (float) as IEEE-754 round-to-nearest-even; "
+        "overflow, subnormal results and non-finite values are outside the model (precondition)",
     ]
-    L = flow.lean_stage(V, ["GivaroModel.Props.C10"], "GivaroModel/Props/C10.lean")
+    L = flow.lean_stage(V, ["GivaroModel.Props.C10", "GivaroModel.Props.C10State", "GivaroModel.Props.C10Conv"], "GivaroModel/Props/C10.lean",
+                        extra_theorem_files=("GivaroModel/Props/C10State.lean", "GivaroModel/Props/C10Conv.lean"))
     bins = flow.build_harnesses("h_rational", configs=("S", "R") if tier == "thorough" else ("S",))
     lines = None
     if replay:
@@ -37,19 +46,30 @@ def run(prop, tier, seed, replay=None):
     res = flow.correspond(bins, "rational", lines=lines, harness_args=[] if lines is not None else [tier, str(seed)])
     counts = flow.decide(V, res, known=report.findings_for(prop))
     ops = {}
+    watched = unobserved = mode0 = 0
     for _, l, _ in res["results"]:
         k = l.split(" ", 1)[0]
         ops[k] = ops.get(k, 0) + 1
+        t = l.rsplit(" ", 1)[-1]
+        if t == "-1":
+            unobserved += 1
+        else:
+            watched += 1
+        if l.split(" ", 2)[1:2] == ["0"]:
+            mode0 += 1
+    if unobserved:
+        V.note("the hardware watchpoint on Rational::flags was not available for %d of %d calls (perf_event_open refused): "
+               "transient writes to the mode are not observed for them, only the mode before/after" % (unobserved, unobserved + watched))
     for n in sorted(flow.UB_NOTES):
         if "givratmisc.C" in n or "std_abs.h" in n:
             V.note("undefined behaviour whose compiled meaning is the right value (DESIGN.md §2.8): pow(Rational, INT64_MIN) negates "
                    "INT64_MIN in int64_t (givratmisc.C) and pow(Integer,int64_t) calls std::abs on it; the result (+-1)^(2^63) is exact: " + n[:160])
     flow.fill_coverage(V, L, res, counts, rule=RULE, extra={
         "operations_exercised": ops, "configs": sorted(bins),
+        "mode_frame": {"calls_with_watchpoint_on_Rational_flags": watched, "calls_unobserved": unobserved, "calls_made_in_NoReduce_mode": mode0},
         "uncovered_api": [
-            "Rational cast operators (short/int/uint64_t/float/double/std::string): conversions out of Q are not part of C10's text",
-            "Rational::operator%(Integer), ratrecon/RationalReconstruction, Rational(f,m,k): C11",
-            "print / operator<< and malformed text for operator>>: C19",
+            "ratrecon/RationalReconstruction, Rational(f,m,k): C11",
+            "malformed text for operator>>: C19",
             "QField::random/nonzerorandom: C20",
             "length(Rational): size accounting, not a value of Q",
             "member comparison operators with Integer/int/double operands (givrational.h:112-330): declared, never defined anywhere in the tree (cannot be called)",
